@@ -10,35 +10,41 @@ pub struct CobsOut {
     pub n: usize,
 }
 
-/// COBS-encode `msg` (no sentinel appended).
-pub fn cobs_encode(msg: &[u8]) -> CobsOut {
-    let mut out = CobsOut { b: [0; CCAP], n: 0 };
+/// COBS-encode `msg` into `out` (no sentinel appended); returns the encoded length.
+pub fn cobs_encode_into(msg: &[u8], out: &mut [u8]) -> usize {
     // position of the current code byte, and its running value
     let mut code_pos = 0usize;
     let mut code: u8 = 1;
-    out.n = 1; // reserve the first code byte
+    let mut n = 1; // reserve the first code byte
     let mut i = 0;
     while i < msg.len() {
         let x = msg[i];
         if x == 0 {
-            out.b[code_pos] = code;
-            code_pos = out.n;
-            out.n += 1;
+            out[code_pos] = code;
+            code_pos = n;
+            n += 1;
             code = 1;
         } else {
-            out.b[out.n] = x;
-            out.n += 1;
+            out[n] = x;
+            n += 1;
             code += 1;
             if code == 0xFF {
-                out.b[code_pos] = code;
-                code_pos = out.n;
-                out.n += 1;
+                out[code_pos] = code;
+                code_pos = n;
+                n += 1;
                 code = 1;
             }
         }
         i += 1;
     }
-    out.b[code_pos] = code;
+    out[code_pos] = code;
+    n
+}
+
+/// COBS-encode `msg` (no sentinel appended).
+pub fn cobs_encode(msg: &[u8]) -> CobsOut {
+    let mut out = CobsOut { b: [0; CCAP], n: 0 };
+    out.n = cobs_encode_into(msg, &mut out.b);
     out
 }
 
